@@ -391,6 +391,18 @@ def cases(shard, nshards, seed, tier):
             if mine():
                 yield {"family": "own-annotation-gaps-without-linker-atoms", "file": fn, "gaps": True,
                        "ops": [{"op": "thin-res", "seed": f"{seed}:{fn}:g{t}", "frac": 0.15}, {"op": "thin-atoms", "seed": f"{seed}:{fn}:p{t}", "frac": 0.5, "names": ["P", "O3'", "OP1", "OP2"]}]}
+    # residue-order presentations: a chain that is not contiguous (A, B, A), chains out of order, reversed list
+    multi = [f for f in gen3d.corpus_files() if f.endswith(("488d.pdb", "4WTI_1_T-P.cif", "1DFU_1_M-N.cif", "4gqj-assembly1.cif", "184D.cif", "1JJP.cif"))]
+    for fn in [f for f in gen3d.corpus_files() if f.endswith(("1A1T_1_B.cif", "1E7K_1_C.cif", "4WTI_1_T-P.cif", "1ehz-assembly-1.cif", "488d.pdb"))]:
+        for t, runs in enumerate(([20, 26], [8, 12, 16])):
+            for gaps in (False, True):
+                if mine():
+                    yield {"family": "own-annotation-long-icode-runs", "file": fn, "gaps": gaps, "ops": [{"op": "icodes", "seed": f"c06-long-{t}", "frac": 1.0, "runs": runs}]}
+    for fn in multi:
+        for ops in ([{"op": "split-chain", "tail": 4}], [{"op": "split-chain", "tail": 1}], [{"op": "chain-order", "seed": "c06", "mode": "reverse"}], [{"op": "reverse-res"}]):
+            for gaps in (False, True):
+                if mine():
+                    yield {"family": "own-annotation-" + ops[0]["op"], "file": fn, "gaps": gaps, "ops": ops}
     n = 600 if tier == "quick" else 15000
     for i in range(n):
         if mine():
